@@ -18,16 +18,18 @@ type Fam = (&'static str, &'static str, Option<&'static [&'static str]>);
 fn families(property: &str) -> Vec<Fam> {
     const C02_CORE: &[&str] = &["routing", "flush", "probe", "panic", "spin", "livelock"];
     const C09_CORE: &[&str] = &["spin", "livelock", "sleep"];
+    const C01_CORE: &[&str] = &["delivery", "flush", "probe", "panic"];
     const C11_REBIND: &[&str] = &["binding", "panic", "spin", "livelock", "probe"];
     match property {
         // the fault family is included: the statement is about subscribers that *stay healthy* while
         // others may fail, be evicted and be replaced by new registrations
-        "C01" => vec![("pubsub", "c01", None), ("pubsub", "c01", None), ("pubsub", "c08", None)],
+        // … and the shutdown family: a message accepted before the channel closes must still be delivered
+        "C01" => vec![("pubsub", "c01", None), ("pubsub", "c01", None), ("pubsub", "c08", None), ("pubsub", "c16", Some(C01_CORE)), ("pubsub", "firehose", None)],
         // replier bind/unbind interleaved with requests and replies is part of the quantifier
-        "C02" => vec![("reqrep", "c02", None), ("reqrep", "c02", None), ("reqrep", "c10", Some(C02_CORE))],
+        "C02" => vec![("reqrep", "c02", None), ("reqrep", "c02", None), ("reqrep", "c10", Some(C02_CORE)), ("reqrep", "firehose", None)],
         "C08" => vec![("pubsub", "c08", None), ("reqrep", "c08", None)],
         // "all reachable router states" includes the states reached through faults and re-binding
-        "C09" => vec![("pubsub", "c09", None), ("reqrep", "c09", None), ("pubsub", "c09", None), ("reqrep", "c09", None), ("pubsub", "c08", Some(C09_CORE)), ("reqrep", "c08", Some(C09_CORE)), ("reqrep", "c10", Some(C09_CORE)), ("pubsub", "burst", None), ("reqrep", "burst", None)],
+        "C09" => vec![("pubsub", "c09", None), ("reqrep", "c09", None), ("pubsub", "c09", None), ("reqrep", "c09", None), ("pubsub", "c08", Some(C09_CORE)), ("reqrep", "c08", Some(C09_CORE)), ("reqrep", "c10", Some(C09_CORE)), ("pubsub", "burst", None), ("reqrep", "burst", None), ("pubsub", "firehose", None), ("reqrep", "firehose", None)],
         "C10" => vec![("reqrep", "c10", None)],
         // "accepted and then silently abandoned" also covers repliers that race for a topic: each must end up
         // served or explicitly refused (binding oracle), whatever the other repliers' sinks do
@@ -152,7 +154,14 @@ fn main() {
                 if i >= runs {
                     break;
                 }
-                let (engine, family, only) = fams[(i % fams.len() as u64) as usize];
+                // heavy families (thousands of items or dozens of peers per run) get 1 run in 40
+                let heavy: Vec<&Fam> = fams.iter().filter(|f| matches!(f.1, "firehose" | "burst")).collect();
+                let light: Vec<&Fam> = fams.iter().filter(|f| !matches!(f.1, "firehose" | "burst")).collect();
+                let (engine, family, only) = if !heavy.is_empty() && i % 40 == 7 {
+                    *heavy[((i / 40) % heavy.len() as u64) as usize]
+                } else {
+                    *light[(i % light.len() as u64) as usize]
+                };
                 let run_seed = mix(mix(seed, i), vharness::common::fnv(family.as_bytes()) ^ vharness::common::fnv(engine.as_bytes()));
                 let keep = i < fams.len() as u64 * 2;
                 let r = run_one(engine, family, run_seed, keep);
